@@ -3,6 +3,7 @@ use crate::directive::Directive;
 use crate::directive::DirectiveLocation;
 use crate::input_value::InputValueDef;
 use crate::name::Name;
+use crate::ty::Ty;
 use crate::DocumentBuilder;
 use apollo_compiler::ast;
 use apollo_compiler::Node;
@@ -148,11 +149,23 @@ impl DocumentBuilder<'_> {
             .filter(|io| io.name == name)
             .flat_map(|io| io.fields.iter().map(|f| f.name.clone()))
             .collect();
-        let fields = self.input_values_def(
+        let mut fields = self.input_values_def(
             DirectiveLocation::InputFieldDefinition,
             &exclude_fields,
             Some(&name),
         )?;
+        if extend {
+            // Values of this input object may have been generated already
+            // (default values of earlier definitions): an extension must not
+            // add a field that those values would be required to provide.
+            for field in &mut fields {
+                if field.default_value.is_none() {
+                    if let Ty::NonNull(inner) = field.ty.clone() {
+                        field.ty = *inner;
+                    }
+                }
+            }
+        }
 
         let directives = self.directives(DirectiveLocation::InputObject)?;
 
